@@ -467,14 +467,22 @@ func C11(run *Run) {
 		}
 		pool := validPool(r, cs.Model)
 		reqs := GenRequests(r, cs, 6)
+		// prewarmed: the same requests were also issued in the window between the last write and the
+		// completion of the invalidation run (only meaningful for must-be-fresh requests on the query cache)
+		prewarmed := false
 		ask := func(stale string) {
+			// KF-19 call site: a ListObjects request served with the check query cache on (its follow-up
+			// checks consult that cache without the controller's invalidation time)
+			pw := stale == "" && strings.Contains(combo, "qc")
+			_ = prewarmed
 			for _, q := range reqs {
 				ev := &CheckEv{Eng: combo, O: q.O, R: q.R, U: q.U, Ctx: q.Ctx}
 				env.RunCheck(ctx, ev, ts, mg)
 				rec.Add(struct {
 					*CheckEv
-					Stale string `json:"stale"`
-				}{ev, stale})
+					Stale     string `json:"stale"`
+					Prewarmed bool   `json:"prewarmed"`
+				}{ev, stale, false})
 				run.Evals++
 			}
 			q := reqs[0]
@@ -482,8 +490,9 @@ func C11(run *Run) {
 			env.RunListObjects(ctx, lo)
 			rec.Add(struct {
 				*ListObjectsEv
-				Stale string `json:"stale"`
-			}{lo, stale})
+				Stale     string `json:"stale"`
+				Prewarmed bool   `json:"prewarmed"`
+			}{lo, stale, pw})
 			run.Evals++
 		}
 		// the very first requests populate the caches from a store nobody has written since: fresh
@@ -528,7 +537,16 @@ func C11(run *Run) {
 			rec.Add(wev)
 			time.Sleep(3 * time.Millisecond) // let the controller's 1 ms interval and the write timestamp pass
 			mark := tr.Mark()
-			ask("ok") // may be stale; triggers the asynchronous invalidation
+			prewarmed = round%2 == 0
+			if prewarmed {
+				ask("ok") // may be stale; triggers the asynchronous invalidation
+			} else {
+				// quiet window: trigger the invalidation with a request about an object and a user that no
+				// earlier request mentioned, so that no cached entry is read (and re-stored) before the run
+				q := reqs[0]
+				trig := &CheckEv{Eng: combo, O: Obj{q.O.T, "zz"}, R: q.R, U: Subj{"user", "zz", ""}, Ctx: q.Ctx}
+				env.RunCheck(ctx, trig, ts, mg)
+			}
 			// wait until a run that began after the write has completed
 			deadline := time.Now().Add(3 * time.Second)
 			ok := false
